@@ -7,7 +7,47 @@ CFGS = {"quick": ["sse2", "scalar"], "thorough": ["sse2", "scalar"]}
 QUICK = ["Vec2", "Vec3", "Vec3A", "Vec4", "DVec2", "DVec3", "DVec4", "IVec2", "IVec3", "IVec4", "U8Vec3", "I16Vec4", "U64Vec2", "USizeVec3", "Quat", "DQuat"]
 BOUNDS = ("all lane bit patterns incl. NaN payloads; Vec3A with an arbitrary hidden lane; the write lemma starts from an ARBITRARY value and performs one write at a symbolic "
           "lane index through each mutable path, then reads through every read path - sequences of writes of any length follow by induction (the pre-state is arbitrary); "
-          "Debug/Display are not executed (core::fmt is out of reach of the bounded model checker); quick tier: 16 representative types, thorough: all 42")
+          "Debug ({:?}) and Display ({} and, for floats, {:.3}) are executed through core::fmt with the per-element number formatter replaced by a bit-exact stand-in (lane order, separators, brackets, type name and forwarding of the precision are decided; the digits core::fmt prints for a number are not; {:#?} and width/fill flags are outside the claim); quick tier: 16 representative types, thorough: all 42")
+_SC_BITS = {"f32": "(v.to_bits() as u64)", "f64": "v.to_bits()"}
+PRELUDE = r"""
+/// collects the text produced by the formatting machinery (every piece is at most 20 bytes, the whole at most 160)
+pub struct Sink { pub b: [u8; 160], pub n: usize, pub bad: bool }
+impl Sink { pub fn new() -> Self { Sink { b: [0u8; 160], n: 0, bad: false } }
+    pub fn push(&mut self, s: &[u8]) { if s.len() <= 20 && self.n + s.len() <= 160 { let mut i = 0; while i < s.len() { self.b[self.n + i] = s[i]; i += 1; } self.n += s.len(); } else { self.bad = true; } }
+    pub fn same(&self, o: &Sink) -> bool { if self.bad || o.bad || self.n != o.n { return false; } let mut k = 0; while k < 8 { let mut i = 0; while i < 20 { if self.b[k * 20 + i] != o.b[k * 20 + i] { return false; } i += 1; } k += 1; } true }
+}
+impl core::fmt::Write for Sink { fn write_str(&mut self, s: &str) -> core::fmt::Result { self.push(s.as_bytes()); Ok(()) } }
+/// stand-in for the element formatters of core::fmt (float / integer printing is not interpreted): the lane's bits as 16 hex digits,
+/// the trait asked for (d = Display, g = Debug) and the precision forwarded, so the text identifies the lane bit for bit
+pub fn lane_hex(bits: u64, prec: Option<usize>, tr: u8) -> [u8; 19] {
+    const HEX: &[u8; 16] = b"0123456789abcdef";
+    let mut buf = [0u8; 19];
+    let mut i = 0;
+    while i < 16 { buf[i] = HEX[((bits >> (60 - 4 * i)) & 15) as usize]; i += 1; }
+    buf[16] = tr;
+    buf[17] = b'p';
+    buf[18] = match prec { None => b'-', Some(p) => HEX[p & 15] };
+    buf
+}
+macro_rules! lane_fmt { ($t:ty, $disp:ident, $dbg:ident, $txt:ident, $bits:expr) => {
+    pub fn $disp(v: &$t, f: &mut core::fmt::Formatter<'_>) -> core::fmt::Result { let b = lane_hex(($bits)(*v), f.precision(), b'd'); f.write_str(unsafe { core::str::from_utf8_unchecked(&b) }) }
+    pub fn $dbg(v: &$t, f: &mut core::fmt::Formatter<'_>) -> core::fmt::Result { let b = lane_hex(($bits)(*v), f.precision(), b'g'); f.write_str(unsafe { core::str::from_utf8_unchecked(&b) }) }
+    /// expected text of one lane: under the model checker the stand-in, natively (replay) what core::fmt really prints
+    #[cfg(kani)] pub fn $txt(v: $t, prec: Option<usize>, dbg: bool) -> [u8; 19] { lane_hex(($bits)(v), prec, if dbg { b'g' } else { b'd' }) }
+    #[cfg(not(kani))] pub fn $txt(v: $t, prec: Option<usize>, dbg: bool) -> Vec<u8> { (match (dbg, prec) { (true, _) => format!("{:?}", v), (false, None) => format!("{}", v), (false, Some(p)) => format!("{:.*}", p, v) }).into_bytes() }
+} }
+lane_fmt!(f32, stub_f32_display, stub_f32_debug, txt_f32, |v: f32| v.to_bits() as u64);
+lane_fmt!(f64, stub_f64_display, stub_f64_debug, txt_f64, |v: f64| v.to_bits());
+lane_fmt!(i8, stub_i8_display, stub_i8_debug, txt_i8, |v: i8| v as u64);
+lane_fmt!(u8, stub_u8_display, stub_u8_debug, txt_u8, |v: u8| v as u64);
+lane_fmt!(i16, stub_i16_display, stub_i16_debug, txt_i16, |v: i16| v as u64);
+lane_fmt!(u16, stub_u16_display, stub_u16_debug, txt_u16, |v: u16| v as u64);
+lane_fmt!(i32, stub_i32_display, stub_i32_debug, txt_i32, |v: i32| v as u64);
+lane_fmt!(u32, stub_u32_display, stub_u32_debug, txt_u32, |v: u32| v as u64);
+lane_fmt!(i64, stub_i64_display, stub_i64_debug, txt_i64, |v: i64| v as u64);
+lane_fmt!(u64, stub_u64_display, stub_u64_debug, txt_u64, |v: u64| v as u64);
+lane_fmt!(usize, stub_usize_display, stub_usize_debug, txt_usize, |v: usize| v as u64);
+"""
 ASSUMPTIONS = ["induction over write histories: each step is decided from an arbitrary pre-state, the composition argument is not mechanised"]
 
 
@@ -142,6 +182,37 @@ def for_type(t, cfg):
         for k in range(N):
             lines += [f'va!("{T}::AXES[{k}][{j}]", ax[{k}].{LET[j]}.bits({one if j == k else zero}));' for j in range(N)]
     H("consts", lines, f"{T}: named constants have the documented lane values through field access and to_array")
+    # (a') Debug / Display: order, separators and forwarding of the precision; element printing replaced by a bit-exact stand-in
+    code, a = draw(t, "a")
+    forms = [("display", "{}", "None", False), ("debug", "{:?}", "None", True)]
+    if t.float:
+        forms.append(("display_prec", "{:.3}", "Some(3)", False))
+    for nm, fmt_, prec, dbg in forms:
+        L = [code, "use core::fmt::Write as _;", "let mut sk = Sink::new();",
+             f'let r = write!(sk, "{fmt_}", a); va!("{T} {nm} ok", r.is_ok());', "let mut ex = Sink::new();"]
+        if dbg:
+            L.append(f'ex.push(b"{T}"); ex.push(b"(");')
+        else:
+            L.append('ex.push(b"[");')
+        for i in range(N):
+            if i:
+                L.append('ex.push(b", ");')
+            L.append(f"ex.push(&txt_{sc}({a[i]}, {prec}, {'true' if dbg else 'false'}));")
+        L.append('ex.push(b")");' if dbg else 'ex.push(b"]");')
+        L.append(f'va!("{T} {nm} text", sk.same(&ex));')
+        hs.append(Harness(f"c17_{t.lname}_{nm}", "\n".join(L), backend="sat",
+                          desc=f"{T} {'Debug' if dbg else 'Display'} ({fmt_}): the text is the {'type name and (' if dbg else '['} lanes 0..N-1 in order, ', '-separated, with the {sc} element formatter replaced by a bit-exact stand-in (core::fmt number printing is not interpreted); natively replayed against the real formatter",
+                          site=f"{T}::{nm}", funcs=[f"<{T} as {'Debug' if dbg else 'Display'}>::fmt"], unwind=22, cap=300,
+                          extra_stubs=[(f"<{sc} as core::fmt::Display>::fmt", f"stub_{sc}_display"), (f"<{sc} as core::fmt::Debug>::fmt", f"stub_{sc}_debug")]))
+        if t.float:
+            # witness twin (run only when the harness above fails): lanes restricted to values whose printed forms differ, so that the counterexample also shows
+            # with the real number formatter in the native replay (two NaN payloads, or 1e-9 and 2e-9 at precision 3, print alike)
+            pre = [f"vassume!({x}.is_finite() && {x}.abs() >= 1.0 && {x}.abs() <= 1000.0);" for x in a]
+            pre += [f"vassume!(({a[i]} - {a[j]}).abs() >= 1.0);" for i in range(N) for j in range(i + 1, N)]
+            hs[-1].fallback = f"c17_{t.lname}_{nm}_w"
+            hs.append(Harness(f"c17_{t.lname}_{nm}_w", "\n".join([L[0]] + pre + L[1:]), backend="sat", desc=f"{T} {nm}: witness search with print-distinct lanes (on demand)",
+                              site=f"{T}::{nm}", funcs=[f"<{T} as {'Debug' if dbg else 'Display'}>::fmt"], unwind=22, cap=300, extra_stubs=hs[-1].extra_stubs))
+            hs[-1].on_demand = True
     # (b) one-step write lemma from an arbitrary pre-state
     code, a = draw(t, "a")
     base = [code, f"let tv = s.{sc}(); let k = s.usize(); vassume!(k < {N});"]
